@@ -902,6 +902,156 @@ Proof.
   destruct X as (s'&->&Hin). done.
 Qed.
 
+(* ---------- the PodGroups that REALLY exist: completeness of the controller's index ---------- *)
+(* every PodGroup object of the PodGroup lister is indexed under its queue *)
+Definition idx_complete (s : st) : Prop :=
+  forall pg q ph, pgl s !! pg = Some (q, ph) -> In (q, pg) (idx s).
+
+(* events under which completeness is kept: everything except a PodGroup that changes its
+   queue (updatePodGroup: "we have no use case update PodGroup.Spec.Queue") and the delivery
+   of a queue DELETION (deleteQueue drops the queue's index) *)
+Definition benign (s : st) (e : ev) : Prop :=
+  match e with
+  | EPgUpd pg q _ => forall q0 ph0, pgl s !! pg = Some (q0, ph0) -> q0 = q
+  | ELSync q => is_Some (srv s !! q) \/ lst s !! q = None
+  | _ => True
+  end.
+Fixpoint benign_hist (s : st) (h : list ev) : Prop :=
+  match h with
+  | [] => True
+  | e :: r => benign s e /\ benign_hist (step s e).1 r
+  end.
+
+Lemma sync_queue_idx s q view fn s' ok :
+  sync_queue s q view fn = (s', ok) ->
+  pgl s' = pgl s /\ forall x, In x (idx s) -> is_Some (pgl s !! snd x) -> In x (idx s').
+Proof.
+  unfold sync_queue. intros H.
+  assert (K : forall (s1 : st) v1 s'' ok',
+            pgl s1 = pgl s -> idx s1 = idx s ->
+            (let n := length (pgs_of (idx s1) q) in
+             let s2 := set_idx s1 (filter (fun qp => negb (bool_decide (fst qp = q) && bool_decide (pgl s1 !! snd qp = None))) (idx s1)) in
+             let new := fn n in
+             if bool_decide (new = q_state view) then sync_hier s2 q v1
+             else match apply_state (srv s2) q new with
+                  | None => (s2, false)
+                  | Some (m, o') => sync_hier (set_srv s2 m) q o'
+                  end) = (s'', ok') ->
+            pgl s'' = pgl s /\ forall x, In x (idx s) -> is_Some (pgl s !! snd x) -> In x (idx s'')).
+  { intros s1 v1 s'' ok' Hp Hi HH. cbn zeta in HH.
+    assert (Hf : forall x, In x (idx s) -> is_Some (pgl s !! snd x) ->
+              In x (filter (fun qp => negb (bool_decide (fst qp = q) && bool_decide (pgl s1 !! snd qp = None))) (idx s1))).
+    { intros x Hx [y Hy]. apply filter_In. rewrite Hi. split; [done|]. rewrite Hp, Hy.
+      rewrite (bool_decide_false (Some y = None)) by done. by rewrite andb_false_r. }
+    destruct (bool_decide (fn (length (pgs_of (idx s1) q)) = q_state view)).
+    - apply sync_hier_spec in HH as ((_&P&_)&_&I). simpl in *. split; [congruence|]. intros x Hx Hs. rewrite I. auto.
+    - destruct (apply_state _ _ _) as [[m o']|]; simplify_eq.
+      + apply sync_hier_spec in HH as ((_&P&_)&_&I). simpl in *. split; [congruence|]. intros x Hx Hs. rewrite I. auto.
+      + simpl. split; [done|]. auto. }
+  destruct (bool_decide (q = root) || bool_decide (is_Some (q_parent view))).
+  - eapply K; eauto.
+  - destruct (srv s !! q) as [o|]; simplify_eq; [|split; [done|auto]].
+    eapply (K (set_srv s _)); eauto.
+Qed.
+
+Lemma exec_idx s q view a s' ok :
+  exec s q view a = (s', ok) ->
+  pgl s' = pgl s /\ forall x, In x (idx s) -> is_Some (pgl s !! snd x) -> In x (idx s').
+Proof.
+  unfold exec. intros H.
+  destruct (q_state view), a;
+  try (by eapply sync_queue_idx; eauto);
+  try (apply open_queue_spec in H as ((_&P&_)&_&I); split; [done|]; intros; by rewrite I);
+  try (apply close_queue_spec in H as ((_&P&_)&_&I&_); split; [done|]; intros; by rewrite I);
+  simplify_eq; (split; [done|auto]).
+Qed.
+
+Lemma pgs_of_In l q pg : In (q, pg) l -> In pg (pgs_of l q).
+Proof.
+  intros H. unfold pgs_of. apply in_map_iff. exists (q, pg). split; [done|].
+  apply filter_In. split; [done|]. simpl. by apply bool_decide_eq_true.
+Qed.
+
+Lemma idx_add_In l q pg x : In x (idx_add l q pg) <-> In x l \/ x = (q, pg).
+Proof.
+  unfold idx_add. destruct (bool_decide ((q, pg) ∈ l)) eqn:E.
+  - apply bool_decide_eq_true in E. apply elem_of_list_In in E. split; [by left|]. intros [?| ->]; done.
+  - rewrite in_app_iff. simpl. naive_solver.
+Qed.
+
+Lemma idx_complete_step s e : idx_complete s -> benign s e -> idx_complete (step s e).1.
+Proof.
+  intros C B. destruct e as [q a|pg q ph|pg q ph|pg|q p|q p|q|q|q|i]; simpl in *.
+  - exact C.
+  - intros pg' q' ph' H. simpl in *. apply idx_add_In.
+    destruct (decide (pg' = pg)) as [->|Hne].
+    + rewrite lookup_insert in H. simplify_eq. by right.
+    + rewrite lookup_insert_ne in H by done. left. eauto.
+  - destruct (pgl s !! pg) as [[q0 ph0]|] eqn:E; [|exact C].
+    assert (q0 = q) as -> by (eapply B; eauto).
+    assert (X : forall l, (forall x, In x (idx s) -> In x l) ->
+              forall pg' q' ph', <[pg:=(q, ph)]> (pgl s) !! pg' = Some (q', ph') -> In (q', pg') l).
+    { intros l Hl pg' q' ph' H. apply Hl. destruct (decide (pg' = pg)) as [->|Hne].
+      - rewrite lookup_insert in H. simplify_eq. eauto.
+      - rewrite lookup_insert_ne in H by done. eauto. }
+    destruct (bool_decide (ph0 = ph)); simpl; intros pg' q' ph' H; simpl in *.
+    + eapply X; eauto.
+    + eapply (X (idx_add (idx s) q pg)); eauto. intros x Hx. apply idx_add_In. by left.
+  - destruct (pgl s !! pg) as [[q0 ph0]|] eqn:E; [|exact C].
+    intros pg' q' ph' H. simpl in *. destruct (decide (pg' = pg)) as [->|Hne].
+    + by rewrite lookup_delete in H.
+    + rewrite lookup_delete_ne in H by done. unfold idx_del. apply filter_In. split; [eauto|].
+      rewrite bool_decide_false; [done|]. congruence.
+  - destruct (srv s !! q); exact C.
+  - destruct (srv s !! q); exact C.
+  - exact C.
+  - destruct (srv s !! q) as [o|] eqn:E1, (lst s !! q) as [o0|] eqn:E2; simpl; try exact C.
+    + destruct (_ && _); exact C.
+    + destruct B as [[? ?]|?]; congruence.
+  - destruct (lst s !! q); exact C.
+  - unfold proc. destruct (nth_error (wq s) i) as [r|]; [|exact C].
+    destruct (lst s !! r_q r) as [v|]; [|exact C].
+    destruct (exec _ _ _ _) as [s1 ok] eqn:E. apply exec_idx in E as (P&I). simpl in *.
+    assert (C1 : idx_complete s1).
+    { intros pg q ph H. rewrite P in H. apply I; [eauto|]. simpl. rewrite H. eauto. }
+    destruct ok; [exact C1|]. destruct (_ || _); exact C1.
+Qed.
+
+Theorem idx_complete_run h : forall s, idx_complete s -> benign_hist s h -> idx_complete (run s h).
+Proof.
+  unfold run. induction h as [|e h IH]; intros s C B; simpl in *; [done|].
+  destruct B as [B1 B2]. apply IH; [by apply idx_complete_step|done].
+Qed.
+
+(* Closed is entered only when no PodGroup of the queue exists (not merely: when the
+   controller's index is empty), and a close with existing PodGroups yields Closing *)
+Theorem closed_only_when_really_empty s e q a :
+  idx_complete s ->
+  sst (srv s) q = Some a -> a <> SClosed -> sst (srv (step s e).1) q = Some SClosed ->
+  forall pg ph, pgl s !! pg <> Some (q, ph).
+Proof.
+  intros C Ha Hne Hb pg ph H. apply C in H. apply pgs_of_In in H.
+  rewrite (closed_only_when_empty s e q a) in H by done. done.
+Qed.
+
+Theorem close_with_real_pgs s i r v pg ph :
+  idx_complete s -> pgl s !! pg = Some (r_q r, ph) ->
+  nth_error (wq s) i = Some r -> lst s !! r_q r = Some v -> r_act r = AClose ->
+  (proc s i).2 = OOk -> r_q r <> root -> q_state v <> SClosed -> q_state v <> SInvalid ->
+  sst (srv s) (r_q r) = Some (q_state v) ->
+  sst (srv (proc s i).1) (r_q r) = Some SClosing.
+Proof.
+  intros C Hpg Hn Hv Ha Ho Hr H1 H2 Hf.
+  rewrite (close_result s i r v) by done.
+  apply C, pgs_of_In in Hpg. destruct (pgs_of (idx s) (r_q r)); [done|]. done.
+Qed.
+
+Theorem closed_only_when_really_empty_hist s0 h e q a : let s := run s0 h in
+  idx_complete s0 -> benign_hist s0 h ->
+  sst (srv s) q = Some a -> a <> SClosed -> sst (srv (step s e).1) q = Some SClosed ->
+  forall pg ph, pgl s !! pg <> Some (q, ph).
+Proof. intros s C B. apply closed_only_when_really_empty. by apply idx_complete_run. Qed.
+
 (* ---------- history forms: every step of every history from every initial state ---------- *)
 Lemma only_by_request_hist s0 h e q a b : let s := run s0 h in
   sst (srv s) q = Some a -> sst (srv (step s e).1) q = Some b -> a <> b ->
